@@ -621,6 +621,10 @@ impl Hasher for RecHasher {
         0
     }
     fn write(&mut self, bytes: &[u8]) {
+        // a hasher may depend on how the bytes are grouped into `write` calls (FxHash-style hashers do):
+        // record the boundary, so that hashing the two segments as slices shows as layout-dependent
+        // (seeded change C13-I: `Hash::hash_slice` on the halves of `as_slices()`)
+        self.rec(0xFFFF_0000_0000_0000u64 | bytes.len() as u64);
         for b in bytes {
             self.rec(*b as u64);
         }
